@@ -16,6 +16,7 @@ SmallShapes == (1..3) \X (1..3)
 NegShapes == (1..2) \X (1..3) \cup {<<3, 2>>, <<3, 3>>}      \* with negative entries (a user-supplied similarity may return any number)
 NegVals == {-3, -1, 2}
 WideShapes == {<<1, 5>>, <<5, 2>>, <<4, 3>>, <<2, 4>>, <<6, 1>>}
+WideShapesT == {<<2, 4>>, <<4, 2>>, <<2, 5>>, <<5, 2>>, <<1, 8>>, <<8, 1>>}      \* thorough tier, over three values
 
 (* large matrices (more rows/columns than the inline capacity of the crate's small vectors),  *)
 (* with pseudo-random entries drawn by TLC                                                       *)
